@@ -90,8 +90,14 @@ func startIdle() *idleRun {
 				return
 			}
 		}
+		d.Reset()
 		time.Sleep(r.idle)
 		after := fmt.Sprintf("after %v without any call", r.idle)
+		// nothing leaves the client without a call
+		if sends := d.Sends(); len(sends) != 0 {
+			r.done <- rp.Failf("uhppote/request-without-a-call", "%d request(s) reached the transport during %v in which no call was made (first: %s %x)", len(sends), r.idle, sends[0].Method, sends[0].Request)
+			return
+		}
 		for _, s := range serials {
 			for _, cs := range []api.Case{{Call: spec.Call{Op: "GetCards", Serial: s}}, {Call: spec.Call{Op: "OpenDoor", Serial: s, Door: 2}}, {Call: spec.Call{Op: "GetStatus", Serial: s}},
 				{Call: spec.Call{Op: "SetPCControl", Serial: s, Enable: true}}, {Call: spec.Call{Op: "GetTime", Serial: s}}} {
